@@ -229,12 +229,24 @@ class Poly:
     def _observe(self, what, arg):
         o = self.obj
         n = o.G.number_of_nodes()
+        # the optional flags of the getters are part of the public interface: every combination is exercised
+        four = self.kind == "cube4D"
         if what == "adjacency":
-            o.get_polytope_adj_matrix()
+            if four:
+                o.get_polytope_adj_matrix(include_opposing_neighbours=bool(arg % 2), only_half_of_cube=bool((arg // 2) % 2))
+            else:
+                o.get_polytope_adj_matrix() if arg % 2 else o.get_polytope_adj_matrix(only_nodes=list(o.G.nodes)[: 3 + arg % 9])
         elif what == "cdist":
-            o.get_cdist_matrix()
+            if four:
+                o.get_cdist_matrix(only_half_of_cube=bool(arg % 2), N=None if (arg // 2) % 2 else 5 + arg % 30)
+            else:
+                o.get_cdist_matrix() if arg % 2 else o.get_cdist_matrix(only_nodes=list(o.G.nodes)[: 3 + arg % 9])
         elif what == "neighbours":
-            o.get_neighbours_of(arg % max(1, n // (2 if self.kind == "cube4D" else 1)))
+            idx = arg % max(1, n // (2 if four else 1))
+            if four:
+                o.get_neighbours_of(idx, include_opposing_neighbours=bool(arg % 2), only_half_of_cube=bool((arg // 2) % 2))
+            else:
+                o.get_neighbours_of(idx)
         elif what == "edges":
             list(o.get_edges_of_categories())
         elif what == "str":
@@ -341,8 +353,9 @@ def _fixed_history(arg):
     ops = []
     for lv in range(top + 1):
         if observers and len(lattice_cached(kind, lv)) <= 200:
-            ops += [{"op": "observe", "what": w, "arg": lv} for w in
-                    (["cells"] if kind == "cube4D" else []) + ["adjacency", "cdist", "neighbours", "edges", "str", "element_graph"]]
+            ops += [{"op": "observe", "what": w, "arg": a} for w in
+                    (["cells"] if kind == "cube4D" else []) + ["adjacency", "cdist", "neighbours", "edges", "str", "element_graph"]
+                    for a in ((0, 1, 2, 3) if w in ("adjacency", "cdist", "neighbours") else (lv,))]
         ops += [{"op": "nodes", "projection": False, "N": None}, {"op": "nodes", "projection": True, "N": None},
                 {"op": "nodes", "projection": False, "N": 5, "N_form": 1 + lv % 3}, {"op": "nodes", "projection": True, "N": 7, "N_form": lv % 4}]
         if kind == "cube4D":
